@@ -182,7 +182,9 @@ COQ_PRELUDE = ("Import ListNotations.\nSet Printing Width 1000000.\nSet Printing
 
 def _coq_eval_shard(args):
     k, tag, imports, scope, exprs = args
-    d = os.path.join(WORK, tag)
+    # one work directory per process: two runs of the same check (e.g. a mutation experiment next
+    # to a normal run) must never write each other's case files
+    d = os.path.join(WORK, f"{tag}.{os.getpid()}")
     os.makedirs(d, exist_ok=True)
     path = os.path.join(d, f"cases_{k}.v")
     with open(path, "w") as f:
@@ -194,11 +196,20 @@ def _coq_eval_shard(args):
         for e in exprs:
             f.write(f"Eval vm_compute in ({e}).\n")
     rc, out = sh(["coqc", "-noglob", "-Q", COQ, "RV", "-Q", d, f"W{tag}", path], timeout=1500)
-    for ext in (".vo", ".vok", ".vos", ".glob"):
+    for ext in (".vo", ".vok", ".vos", ".glob", ".v"):
         try:
-            os.remove(path[:-2] + ext)
+            if rc == 0 or ext != ".v":
+                os.remove(path[:-2] + ext)
         except OSError:
             pass
+    try:
+        os.remove(os.path.join(d, f".cases_{k}.aux"))
+    except OSError:
+        pass
+    try:
+        os.rmdir(d)
+    except OSError:
+        pass
     if rc != 0:
         raise RuntimeError(f"coqc failed on {path}:\n{out[-3000:]}")
     vals = []
